@@ -1,14 +1,19 @@
 package main
 
-// C03 — finality: stable needs 2/3 DISTINCT deputies incl. the miner, moves forward along one chain,
-// head descends from stable, for any arrival order of blocks and confirmations.
+// C03 — finality: stable needs 2/3 DISTINCT deputies of the block's term incl. the miner, moves forward
+// along one chain, head descends from stable, for any arrival order of blocks and confirmations.
 //
-// A builder node assembles a block tree (forks above genesis) with the real miner path; a second,
-// receiving node (not a deputy itself, so Confirmer.TryConfirm / batchConfirmStable are no-ops and
-// the run is deterministic) gets the blocks and confirmation packets in a perturbed order through
-// DPoVP.InsertBlock / DPoVP.InsertConfirms.  After every operation the canonical line
-//   <result> stable=<id>@<h> head=<id>@<h> tree=<id:confirms,...>[ q=<distinct signers of the new stable>]
+// A builder node assembles a block tree (forks, optionally across a term boundary with a changed deputy
+// set) with the real miner path; a second, RECEIVING node — an outsider or one of the deputies, so that
+// Confirmer.TryConfirm / SetLastSig / needConfirm / batchConfirmStable run — gets the blocks and
+// confirmation packets in a perturbed order through DPoVP.InsertBlock / DPoVP.InsertConfirms, mines on
+// its own head when it is in turn (DPoVP.MineBlock) and is restarted now and then.  After every
+// operation the canonical line
+//   <result> stable=<id>@<h> head=<id>@<h> tree=<id:sig+sig,...> cm=<id:sig+sig,...> terms=<a.b|c.d> ls=<h>/<id>[ q=<distinct>/<need>]
 // is compared with the Lean model (LemoModel/Stable.lean) and the direct oracle checks the property.
+//
+// The engine's batchConfirmStable goroutine (it adds the node's own signature to newly stable blocks)
+// is awaited (spinning, no sleep) before the state is observed; the model runs it synchronously.
 
 import (
 	"bytes"
@@ -24,6 +29,7 @@ import (
 
 	"github.com/LemoFoundationLtd/lemochain-core/chain/consensus"
 	"github.com/LemoFoundationLtd/lemochain-core/chain/deputynode"
+	"github.com/LemoFoundationLtd/lemochain-core/chain/params"
 	"github.com/LemoFoundationLtd/lemochain-core/chain/types"
 	"github.com/LemoFoundationLtd/lemochain-core/common"
 	"github.com/LemoFoundationLtd/lemochain-core/common/crypto"
@@ -32,16 +38,18 @@ import (
 func init() { subs["c03"] = c03 }
 
 type c03blk struct {
-	id     int
-	blk    *types.Block // canonical header signature
-	hash   common.Hash
-	parent int
-	height uint32
-	miner  int
-	valid  bool // passes every check that is outside the model
-	rank   int
-	hdrVar int  // header signature variant delivered to the receiver
-	built  bool // known to the builder (can be a parent)
+	id      int
+	blk     *types.Block // canonical header signature
+	hash    common.Hash
+	parent  int
+	height  uint32
+	miner   int
+	valid   bool // passes every check that is outside the model
+	rank    int
+	built   bool // known to the builder
+	alive   bool // still in the builder's store (can be a parent)
+	nextDep string
+	snapBad bool
 }
 
 func c03errName(err error) string {
@@ -94,19 +102,29 @@ func c03signNonce(hash []byte, k *ecdsa.PrivateKey, nonce *big.Int) []byte {
 	return out
 }
 
+// which code the model driver stands for: "" = live, "d34eb0a" / "262c027" = the code before that fix
+// (C03_ASIS, debugging only, together with VERIF_REPO=<tree with the commit(s) reverted>).
+var c03asis string
+
+const c03outsider = 1000 // model number of a receiver that is nobody's deputy
+
 // c03scn is one scenario: world, the two nodes, the generated blocks, signature naming.
 type c03scn struct {
-	c      *Ctx
-	w      *World
-	B, R   *Node
-	nDep   int
-	dc     int
-	n      int // deputies of the term = min(nDep, dc)
-	blks   []*c03blk
-	byHash map[common.Hash]*c03blk
-	names  map[string]string // (target hash, sig bytes) -> model name
-	fresh  int
-	lines  []string // op lines of this scenario (replay)
+	c       *Ctx
+	w       *World
+	B, R    *Node
+	keys    []*ecdsa.PrivateKey // node keys numbered for the model: genesis deputies first
+	nDep    int
+	dc      int
+	T, I    uint32
+	rkey    *ecdsa.PrivateKey // identity of the receiver
+	rself   int
+	blks    []*c03blk
+	byHash  map[common.Hash]*c03blk
+	names   map[string]string // (target hash, sig bytes) -> model name
+	fresh   int
+	lines   []string // op lines of this scenario (replay)
+	started bool
 	// oracle state
 	prevStable   *c03blk
 	prevHead     *c03blk
@@ -114,9 +132,18 @@ type c03scn struct {
 	committedIDs []int
 }
 
-func (s *c03scn) deputyIndex(nodeID []byte) int {
-	for i, k := range s.w.DeputyKeys {
+func (s *c03scn) keyIndex(nodeID []byte) int {
+	for i, k := range s.keys {
 		if bytes.Equal(crypto.PrivateKeyToNodeID(k), nodeID) {
+			return i
+		}
+	}
+	return -1
+}
+
+func (s *c03scn) addrIndex(a common.Address) int {
+	for i, k := range s.keys {
+		if keyAddr(k) == a {
 			return i
 		}
 	}
@@ -134,8 +161,8 @@ func (s *c03scn) sigName(h common.Hash, sig []byte) string {
 	if err != nil {
 		s.fresh++
 		name = fmt.Sprintf("x.%d", s.fresh)
-	} else if i := s.deputyIndex(nodeID); i >= 0 {
-		canon, _ := crypto.Sign(h[:], s.w.DeputyKeys[i])
+	} else if i := s.keyIndex(nodeID); i >= 0 {
+		canon, _ := crypto.Sign(h[:], s.keys[i])
 		switch {
 		case bytes.Equal(canon, sig):
 			name = fmt.Sprintf("%d.0", i)
@@ -147,62 +174,76 @@ func (s *c03scn) sigName(h common.Hash, sig []byte) string {
 		}
 	} else {
 		s.fresh++
-		name = fmt.Sprintf("%d.0", 1000+s.fresh)
+		name = fmt.Sprintf("%d.0", 2000+s.fresh)
 	}
 	s.names[key] = name
 	return name
 }
 
-func (s *c03scn) sigNames(h common.Hash, sigs [][]byte) string {
+func (s *c03scn) sigNames(h common.Hash, sigs [][]byte, sep string) string {
 	if len(sigs) == 0 {
-		return "-"
+		if sep == "," {
+			return "-"
+		}
+		return ""
 	}
 	out := make([]string, len(sigs))
 	for i, g := range sigs {
 		out[i] = s.sigName(h, g)
 	}
-	return strings.Join(out, ",")
+	return strings.Join(out, sep)
+}
+
+func c03sign(k *ecdsa.PrivateKey, hh common.Hash) []byte {
+	g, err := crypto.Sign(hh[:], k)
+	if err != nil {
+		panic(err)
+	}
+	return g
 }
 
 // genSig makes one signature offered for block b; the class is counted.
 func (s *c03scn) genSig(b *c03blk, prev [][]byte) []byte {
 	c := s.c
 	h := b.hash
-	dep := func() *ecdsa.PrivateKey { return s.w.DeputyKeys[c.Rnd.Intn(s.nDep)] }
-	sign := func(k *ecdsa.PrivateKey, hh common.Hash) []byte {
-		g, err := crypto.Sign(hh[:], k)
-		if err != nil {
-			panic(err)
-		}
-		return g
-	}
+	dep := func() *ecdsa.PrivateKey { return s.keys[c.Rnd.Intn(len(s.keys))] }
 	x := c.Rnd.Intn(100)
+	if s.rself != c03outsider && x < 12 {
+		// the receiver's own signature comes back from the network (it signed the block before a crash):
+		// as it was, or re-encoded by a peer
+		if x < 7 {
+			c.Count("sig:self-malleated")
+			return malleate(c03sign(s.rkey, h))
+		}
+		c.Count("sig:self-canonical")
+		return c03sign(s.rkey, h)
+	}
 	switch {
-	case x < 50:
+	case x < 52:
 		c.Count("sig:deputy")
-		return sign(dep(), h)
-	case x < 58:
+		return c03sign(dep(), h)
+	case x < 59:
 		c.Count("sig:miner-malleated")
 		return malleate(b.blk.Header.SignData)
 	case x < 66:
 		c.Count("sig:deputy-malleated")
-		return malleate(sign(dep(), h))
+		return malleate(c03sign(dep(), h))
 	case x < 72:
 		c.Count("sig:miner-canonical")
 		return append([]byte{}, b.blk.Header.SignData...)
 	case x < 78:
 		c.Count("sig:non-deputy")
-		return sign(detKey(fmt.Sprintf("outsider-%d", c.Rnd.Intn(3))), h)
+		return c03sign(detKey(fmt.Sprintf("outsider-%d", c.Rnd.Intn(3))), h)
 	case x < 84:
 		c.Count("sig:other-hash")
 		other := s.blks[c.Rnd.Intn(len(s.blks))]
 		if other.hash == h {
-			return sign(dep(), s.B.BC.Genesis().Hash())
+			return c03sign(dep(), common.Hash{7})
 		}
-		return sign(dep(), other.hash)
+		return c03sign(dep(), other.hash)
 	case x < 89:
 		c.Count("sig:unrecoverable")
-		g := sign(dep(), h)
+		g := c03sign(dep(), h)
 		g[64] = byte(4 + c.Rnd.Intn(200))
 		return g
 	case x < 95:
@@ -211,7 +252,7 @@ func (s *c03scn) genSig(b *c03blk, prev [][]byte) []byte {
 			return append([]byte{}, prev[c.Rnd.Intn(len(prev))]...)
 		}
 		c.Count("sig:deputy")
-		return sign(dep(), h)
+		return c03sign(dep(), h)
 	default:
 		c.Count("sig:deputy-other-nonce")
 		nonce := new(big.Int).SetInt64(int64(2 + c.Rnd.Intn(1000000)))
@@ -222,7 +263,7 @@ func (s *c03scn) genSig(b *c03blk, prev [][]byte) []byte {
 func (s *c03scn) genSigs(b *c03blk, max int) [][]byte {
 	k := 1 + s.c.Rnd.Intn(max)
 	if s.c.Rnd.Intn(12) == 0 {
-		k = s.n + 1
+		k = s.dc + 1
 	}
 	var out [][]byte
 	for i := 0; i < k; i++ {
@@ -239,6 +280,14 @@ func toSignData(sigs [][]byte) []types.SignData {
 	return out
 }
 
+func c03bytes(sd []types.SignData) [][]byte {
+	out := make([][]byte, len(sd))
+	for i := range sd {
+		out[i] = append([]byte{}, sd[i][:]...)
+	}
+	return out
+}
+
 func (s *c03scn) idOf(b *types.Block) int {
 	if x, ok := s.byHash[b.Hash()]; ok {
 		return x.id
@@ -246,32 +295,123 @@ func (s *c03scn) idOf(b *types.Block) int {
 	return -1
 }
 
+// asReceiver switches the process-wide node identity to the receiver's and empties the package-level
+// signature memo of SignBlock (it is keyed by hash only; in one process it would hand the receiver a
+// signature made with the builder's key).
+func (s *c03scn) asReceiver() {
+	deputynode.SetSelfNodeKey(s.rkey)
+	consensus.VerifSetSigCache(common.Hash{}, nil)
+}
+
+// depsIdx: model numbers of the deputies in charge of height h, as the receiver knows them.
+func (s *c03scn) depsIdx(h uint32) []int {
+	var out []int
+	for _, d := range s.R.DM.GetDeputiesByHeight(h, true) {
+		out = append(out, s.keyIndex(d.NodeID))
+	}
+	return out
+}
+
+// signerSet: the model numbers the stored signatures of b (header first) recover to (-1: nobody known).
+func (s *c03scn) signerNodes(b *types.Block) []int {
+	h := b.Hash()
+	all := append([][]byte{b.Header.SignData}, c03bytes(b.Confirms)...)
+	out := make([]int, len(all))
+	for i, g := range all {
+		out[i] = -1
+		if id, err := types.BytesToSignData(g).RecoverNodeID(h); err == nil {
+			out[i] = s.keyIndex(id)
+		}
+	}
+	return out
+}
+
+// awaitBatchConfirm waits (spinning) until the batchConfirmStable goroutine started by the last stable
+// change has dealt with every block in (from, to].
+func (s *c03scn) awaitBatchConfirm(from, to uint32) {
+	if s.rself == c03outsider {
+		return
+	}
+	deadline := time.Now().Add(5 * time.Second)
+	for h := from + 1; h <= to; h++ {
+		for {
+			b, err := s.R.DB.GetBlockByHeight(h)
+			if err != nil || b == nil {
+				break
+			}
+			done := !s.R.DM.IsSelfDeputyNode(h) || consensus.IsConfirmEnough(b, s.R.DM)
+			canon := c03sign(s.rkey, b.Hash())
+			for _, g := range b.Confirms {
+				if bytes.Equal(g[:], canon) {
+					done = true
+				}
+			}
+			if bytes.Equal(b.Header.SignData, canon) {
+				done = true
+			}
+			if c03asis == "" { // live code: tryConfirmStable skips a block the node has signed in any encoding
+				for _, n := range s.signerNodes(b) {
+					if n == s.rself {
+						done = true
+					}
+				}
+			}
+			if done {
+				break
+			}
+			if time.Now().After(deadline) {
+				s.c.Fail("c03/harness-batch-confirm-timeout", fmt.Sprintf("batchConfirmStable did not reach height %d", h), s.replay())
+				return
+			}
+			runtime.Gosched()
+		}
+	}
+	// the goroutine sets lastSig after SaveConfirm of the last block: let it finish
+	for i := 0; i < 50; i++ {
+		runtime.Gosched()
+	}
+}
+
 // observe prints the canonical state line and runs the direct oracle.
 func (s *c03scn) observe(res string) string {
 	c := s.c
 	runtime.Gosched()
 	st := s.R.BC.StableBlock()
+	if st.Height() > s.prevStable.height {
+		s.awaitBatchConfirm(s.prevStable.height, st.Height())
+	}
 	hd := s.R.BC.CurrentBlock()
 	sb, hb := s.byHash[st.Hash()], s.byHash[hd.Hash()]
 	if sb == nil || hb == nil {
 		c.Fail("c03/unknown-block", "stable or head is a block the harness never made", s.replay())
 		return res + " stable=?"
 	}
-	type ent struct{ id, k int }
-	var tree []ent
-	s.R.DB.IterateUnConfirms(func(b *types.Block) { tree = append(tree, ent{s.idOf(b), len(b.Confirms)}) })
-	sort.Slice(tree, func(i, j int) bool { return tree[i].id < tree[j].id })
-	ts := "-"
-	if len(tree) > 0 {
-		parts := make([]string, len(tree))
-		for i, e := range tree {
-			parts[i] = fmt.Sprintf("%d:%d", e.id, e.k)
-		}
-		ts = strings.Join(parts, ",")
+	showBlk := func(b *types.Block) string {
+		return fmt.Sprintf("%d:%s", s.idOf(b), s.sigNames(b.Hash(), c03bytes(b.Confirms), "+"))
 	}
-	line := fmt.Sprintf("%s stable=%d@%d head=%d@%d tree=%s", res, sb.id, st.Height(), hb.id, hd.Height(), ts)
+	type ent struct {
+		id int
+		s  string
+	}
+	var treeBlocks []*types.Block
+	s.R.DB.IterateUnConfirms(func(b *types.Block) { treeBlocks = append(treeBlocks, b) })
+	var tree []ent
+	for _, b := range treeBlocks {
+		tree = append(tree, ent{s.idOf(b), showBlk(b)})
+	}
+	sort.Slice(tree, func(i, j int) bool { return tree[i].id < tree[j].id })
+	join := func(es []ent) string {
+		if len(es) == 0 {
+			return "-"
+		}
+		parts := make([]string, len(es))
+		for i, e := range es {
+			parts[i] = e.s
+		}
+		return strings.Join(parts, ",")
+	}
 
-	// ---- direct oracle ----
+	// ---- direct oracle (and the committed part of the state line) ----
 	up := func(b *c03blk, h uint32) *c03blk { // ancestor of b at height h
 		for b != nil && b.height > h {
 			if b.parent < 0 {
@@ -295,8 +435,19 @@ func (s *c03scn) observe(res string) string {
 			c.Count("stable-jump>1")
 		}
 	}
+	headBad := false
 	if a := up(hb, sb.height); hb.height < sb.height || a == nil || a.id != sb.id {
-		c.Fail("c03/head-not-descendant", fmt.Sprintf("head %d@%d does not descend from stable %d@%d", hb.id, hb.height, sb.id, sb.height), s.replay())
+		headBad = true
+		if res == "panic" {
+			// root cause: a Go panic on the stable-advance path after SetStableBlock has committed
+			c.Count("panic-after-commit")
+			c.Fail("c03/panic-after-stable-commit/head-not-descendant", fmt.Sprintf("the operation panicked after the stable pointer moved to %d@%d; the head stays %d@%d, which does not descend from it", sb.id, sb.height, hb.id, hb.height), s.replay())
+		} else {
+			c.Fail("c03/head-not-descendant", fmt.Sprintf("head %d@%d does not descend from stable %d@%d", hb.id, hb.height, sb.id, sb.height), s.replay())
+		}
+	}
+	if res == "panic" && !headBad {
+		c.Count("panic-harmless-head")
 	}
 	if hb.id != sb.id {
 		c.Count("head-above-stable")
@@ -333,6 +484,7 @@ func (s *c03scn) observe(res string) string {
 	s.prevTree = nowTree
 	// GetBlockByHeight over the stable range: one chain, never replaced
 	var prevHash common.Hash
+	var cm []ent
 	for h := uint32(0); h <= st.Height(); h++ {
 		b, err := s.R.DB.GetBlockByHeight(h)
 		if err != nil || b == nil || b.Height() != h {
@@ -340,6 +492,9 @@ func (s *c03scn) observe(res string) string {
 			break
 		}
 		id := s.idOf(b)
+		if h > 0 {
+			cm = append(cm, ent{id, showBlk(b)})
+		}
 		if int(h) < len(s.committedIDs) {
 			if s.committedIDs[h] != id {
 				c.Fail("c03/stable-replaced", fmt.Sprintf("height %d was block %d, now %d", h, s.committedIDs[h], id), s.replay())
@@ -355,44 +510,59 @@ func (s *c03scn) observe(res string) string {
 		}
 		prevHash = b.Hash()
 	}
-	// quorum: DISTINCT deputies among header signer + confirms of the block that just became stable
+	sort.Slice(cm, func(i, j int) bool { return cm[i].id < cm[j].id })
+	// known terms
+	var terms []string
+	for k := uint32(0); ; k++ {
+		t, err := s.R.DM.GetTermByHeight(k*s.T, false)
+		if err != nil || t == nil {
+			break
+		}
+		var ns []string
+		for _, d := range t.Nodes {
+			ns = append(ns, fmt.Sprintf("%d", s.keyIndex(d.NodeID)))
+		}
+		terms = append(terms, strings.Join(ns, "."))
+		if k > 50 {
+			break
+		}
+	}
+	lsH, lsHash := s.R.BC.VerifEngine().VerifLastSig()
+	lsID := -1
+	if x, ok := s.byHash[lsHash]; ok {
+		lsID = x.id
+	}
+	line := fmt.Sprintf("%s stable=%d@%d head=%d@%d tree=%s cm=%s terms=%s ls=%d/%d", res, sb.id, st.Height(), hb.id, hd.Height(), join(tree), join(cm), strings.Join(terms, "|"), lsH, lsID)
+
+	// quorum: DISTINCT deputies OF THE BLOCK'S TERM among header signer + confirms of the block that just became stable
 	if changed {
-		need := (2*s.n + 2) / 3
-		type rec struct {
-			node int
-			sig  []byte
+		deps := s.depsIdx(st.Height())
+		isDep := map[int]bool{}
+		for _, d := range deps {
+			isDep[d] = true
 		}
-		var recs []rec
-		h := st.Hash()
-		all := append([][]byte{st.Header.SignData}, func() [][]byte {
-			var o [][]byte
-			for _, g := range st.Confirms {
-				o = append(o, append([]byte{}, g[:]...))
-			}
-			return o
-		}()...)
+		need := (2*len(deps) + 2) / 3
+		nodes := s.signerNodes(st)
+		all := append([][]byte{st.Header.SignData}, c03bytes(st.Confirms)...)
 		distinct := map[int]bool{}
-		for _, g := range all {
-			id, err := types.BytesToSignData(g).RecoverNodeID(h)
-			node := -1
-			if err == nil {
-				node = s.deputyIndex(id)
-				if node >= s.n {
-					node = -1
-				}
-			}
-			recs = append(recs, rec{node, g})
-			if node >= 0 {
-				distinct[node] = true
+		for _, n := range nodes {
+			if n >= 0 && isDep[n] {
+				distinct[n] = true
 			}
 		}
-		line += fmt.Sprintf(" q=%d", len(distinct))
-		if len(distinct) < need {
+		line += fmt.Sprintf(" q=%d/%d", len(distinct), need)
+		if len(deps) == 0 {
+			c.Fail("c03/stable-with-unknown-term", fmt.Sprintf("block %d@%d became stable although its term is unknown to the node (TwoThirdDeputyCount = 0)", sb.id, sb.height), s.replay())
+		} else if len(distinct) < need {
 			cause := "other"
-			for i := 0; i < len(recs) && cause == "other"; i++ {
-				for j := i + 1; j < len(recs); j++ {
-					if recs[i].node >= 0 && recs[i].node == recs[j].node {
-						if bytes.Equal(malleate(recs[i].sig), recs[j].sig) {
+			selfTwice := 0
+			for i := 0; i < len(nodes); i++ {
+				if nodes[i] == s.rself && s.rself != c03outsider {
+					selfTwice++
+				}
+				for j := i + 1; j < len(nodes); j++ {
+					if nodes[i] >= 0 && nodes[i] == nodes[j] {
+						if bytes.Equal(malleate(all[i]), all[j]) {
 							cause = "malleated-sig"
 						} else if cause == "other" {
 							cause = "resigned-nonce"
@@ -400,23 +570,23 @@ func (s *c03scn) observe(res string) string {
 					}
 				}
 			}
-			// prefer the malleation class when both occur
-			for i := 0; i < len(recs); i++ {
-				for j := i + 1; j < len(recs); j++ {
-					if recs[i].node >= 0 && recs[i].node == recs[j].node && bytes.Equal(malleate(recs[i].sig), recs[j].sig) {
-						cause = "malleated-sig"
-					}
-				}
-			}
-			for _, r := range recs {
-				if r.node < 0 && cause == "other" {
+			for _, n := range nodes {
+				if (n < 0 || !isDep[n]) && cause == "other" {
 					cause = "non-deputy-counted"
 				}
 			}
+			if selfTwice >= 2 {
+				// the receiving deputy's own signature is on the block twice: the second one was added by
+				// Confirmer.TryConfirm (byte-wise IsConfirmExist), not by VerifyNewConfirms
+				cause = "own-confirm-twice"
+			}
 			c.Count("quorum-violated:" + cause)
-			c.Fail("c03/quorum-not-distinct/"+cause, fmt.Sprintf("block %d@%d became stable with %d signature(s) from %d distinct deputy(ies) of %d; need %d distinct", sb.id, sb.height, len(all), len(distinct), s.n, need), s.replay())
+			c.Fail("c03/quorum-not-distinct/"+cause, fmt.Sprintf("block %d@%d became stable with %d signature(s) from %d distinct deputy(ies) of the %d of its term; need %d distinct", sb.id, sb.height, len(all), len(distinct), len(deps), need), s.replay())
 		} else {
 			c.Count("quorum-ok")
+		}
+		if params.TermDuration < 1000 && st.Height() >= params.TermDuration+params.InterimDuration+1 {
+			c.Count("stable-in-later-term")
 		}
 	}
 	s.prevStable = sb
@@ -425,41 +595,50 @@ func (s *c03scn) observe(res string) string {
 
 func (s *c03scn) replay() interface{} {
 	l := s.lines
-	if len(l) > 60 {
-		l = l[len(l)-60:]
+	if len(l) > 80 {
+		l = l[len(l)-80:]
 	}
 	return map[string]interface{}{"ops": append([]string{}, l...)}
 }
 
-func (s *c03scn) op(line, out string) {
-	s.c.Op(line, out)
+func (s *c03scn) op(line, out string) { s.c.Op(line, out) }
+
+func c03b(v bool) int {
+	if v {
+		return 1
+	}
+	return 0
 }
 
 // deliverBlock runs one `blk` op on the receiver.
-func (s *c03scn) deliverBlock(b *c03blk, hdr []byte, carried [][]byte) {
+func (s *c03scn) deliverBlock(b *c03blk, hdr []byte, carried [][]byte) string {
 	c := s.c
 	nb := CloneBlock(b.blk)
 	nb.Header.SignData = append([]byte{}, hdr...)
 	nb.Confirms = toSignData(carried)
-	v := 0
-	if b.valid {
-		v = 1
-	}
-	line := fmt.Sprintf("blk %d %d %d %d %d %s %d %s", b.id, b.parent, b.height, b.miner, b.rank, s.sigName(b.hash, hdr), v, s.sigNames(b.hash, carried))
-	deputynode.SetSelfNodeKey(detKey("outsider"))
+	line := fmt.Sprintf("blk %d %d %d %d %d %s %d %s %s %d", b.id, b.parent, b.height, b.miner, b.rank, s.sigName(b.hash, hdr), c03b(b.valid), s.sigNames(b.hash, carried, ","), b.nextDep, c03b(b.snapBad))
+	s.asReceiver()
+	termKnown := len(s.R.DM.GetDeputiesByHeight(b.height, true)) > 0
 	s.lines = append(s.lines, line)
 	res := Safe(func() string { return c03errName(s.R.Insert(nb)) })
 	c.Count("blk:" + res)
 	if len(carried) > 0 {
 		c.Count("blk-carried-confirms")
 	}
+	if !termKnown {
+		c.Count("blk-unknown-term:" + res)
+		if res == "ok" {
+			c.Fail("c03/unknown-term-block-accepted", fmt.Sprintf("block %d@%d was accepted although the node does not know the deputies of its term", b.id, b.height), s.replay())
+		}
+	}
 	s.op(line, s.observe(res))
+	return res
 }
 
 func (s *c03scn) deliverConfirms(b *c03blk, height uint32, sigs [][]byte) {
 	c := s.c
-	line := fmt.Sprintf("cf %d %d %s", b.id, height, s.sigNames(b.hash, sigs))
-	deputynode.SetSelfNodeKey(detKey("outsider"))
+	line := fmt.Sprintf("cf %d %d %s", b.id, height, s.sigNames(b.hash, sigs, ","))
+	s.asReceiver()
 	eng := s.R.BC.VerifEngine()
 	switch {
 	case !s.R.BC.HasBlock(b.hash):
@@ -475,17 +654,114 @@ func (s *c03scn) deliverConfirms(b *c03blk, height uint32, sigs [][]byte) {
 	s.op(line, s.observe(res))
 }
 
-func c03newScn(c *Ctx, nDep, dc int) *c03scn {
+// mine: the receiver mines on its own head through DPoVP.MineBlock, if it is the deputy in turn right now.
+func (s *c03scn) mine() {
+	c := s.c
+	if s.rself == c03outsider {
+		return
+	}
+	head := s.R.BC.CurrentBlock()
+	now := uint32(time.Now().Unix())
+	k, err := s.R.InTurn(head, now)
+	if err != nil || k != s.rkey {
+		c.Count("mine:not-in-turn")
+		return
+	}
+	parent := s.byHash[head.Hash()]
+	if parent == nil {
+		return
+	}
+	s.asReceiver()
+	var blk *types.Block
+	res := Safe(func() string {
+		var e error
+		blk, e = s.R.BC.VerifEngine().MineBlock(60000)
+		if e != nil {
+			return "err"
+		}
+		return "ok"
+	})
+	if res == "err" || blk == nil && res != "panic" {
+		c.Count("mine:refused")
+		return
+	}
+	if blk == nil { // panicked inside saveNewBlock: the block is the new stable or head, find it
+		c.Count("mine:panic")
+		return
+	}
+	b := s.byHash[blk.Hash()]
+	if b != nil {
+		// mined the very same block again (after a restart lost it, within the same second)
+		c.Count("mine:same-block-again")
+		line := fmt.Sprintf("mine %d %d %d %d %d %s %d", b.id, b.parent, b.height, b.miner, b.rank, b.nextDep, c03b(b.snapBad))
+		s.lines = append(s.lines, line)
+		s.op(line, s.observe(res))
+		return
+	}
+	b = &c03blk{id: len(s.blks), blk: blk, hash: blk.Hash(), parent: parent.id, height: blk.Height(), miner: s.rself, valid: true}
+	s.describeSnapshot(b)
+	// rank of the new hash among the known ones
+	lo, hi := -1000, 1000*(len(s.blks)+2)
+	for _, x := range s.blks {
+		if bytes.Compare(x.hash[:], b.hash[:]) < 0 && x.rank > lo {
+			lo = x.rank
+		}
+		if bytes.Compare(x.hash[:], b.hash[:]) > 0 && x.rank < hi {
+			hi = x.rank
+		}
+	}
+	b.rank = (lo + hi) / 2
+	if b.rank == lo || b.rank < 0 {
+		c.Count("mine:no-rank-gap")
+		b.rank = lo + 1
+	}
+	s.blks = append(s.blks, b)
+	s.byHash[b.hash] = b
+	line := fmt.Sprintf("mine %d %d %d %d %d %s %d", b.id, b.parent, b.height, b.miner, b.rank, b.nextDep, c03b(b.snapBad))
+	s.lines = append(s.lines, line)
+	c.Count("mine:" + res)
+	s.op(line, s.observe(res))
+}
+
+// reopen restarts the receiver on its data directory.
+func (s *c03scn) reopen() {
+	c := s.c
+	before := s.R.BC.StableBlock().Hash()
+	s.asReceiver()
+	s.lines = append(s.lines, "reopen")
+	res := Safe(func() string { s.R.Reopen(); return "ok" })
+	c.Count("reopen:" + res)
+	if res != "ok" {
+		c.Fail("c03/restart-failed", "the node does not start on its own data directory", s.replay())
+		s.op("reopen", res+" stable=?")
+		return
+	}
+	if s.R.BC.StableBlock().Hash() != before {
+		c.Fail("c03/stable-lost-on-restart", fmt.Sprintf("stable block before the restart %x, after %x", before[:4], s.R.BC.StableBlock().Hash().Bytes()[:4]), s.replay())
+	}
+	if s.R.BC.CurrentBlock().Hash() != before {
+		c.Fail("c03/head-after-restart", "the head after a restart is not the stable block", s.replay())
+	}
+	s.op("reopen", s.observe(res))
+}
+
+func c03newScn(c *Ctx, nDep, dc int, T, I uint32, rself int) *c03scn {
+	params.TermDuration, params.InterimDuration = T, I
 	now := uint32(time.Now().Unix())
 	w := NewWorld(nDep, now-500000, 10000)
-	s := &c03scn{c: c, w: w, nDep: nDep, dc: dc, n: nDep, byHash: map[common.Hash]*c03blk{}, names: map[string]string{}}
-	if dc < s.n {
-		s.n = dc
+	s := &c03scn{c: c, w: w, nDep: nDep, dc: dc, T: T, I: I, byHash: map[common.Hash]*c03blk{}, names: map[string]string{}}
+	s.keys = append(s.keys, w.DeputyKeys...)
+	s.rself = rself
+	if rself == c03outsider {
+		s.rkey = detKey("outsider")
+	} else {
+		s.rkey = s.keys[rself]
 	}
+	deputynode.SetSelfNodeKey(detKey("outsider"))
 	s.B = w.NewNode(dc)
 	s.R = w.NewNode(dc)
 	g := s.B.BC.Genesis()
-	gb := &c03blk{id: 0, blk: g, hash: g.Hash(), parent: -1, height: 0, valid: true, built: true}
+	gb := &c03blk{id: 0, blk: g, hash: g.Hash(), parent: -1, height: 0, valid: true, built: true, alive: true, nextDep: "-"}
 	s.blks = []*c03blk{gb}
 	s.byHash[gb.hash] = gb
 	s.prevStable = gb
@@ -493,32 +769,55 @@ func c03newScn(c *Ctx, nDep, dc int) *c03scn {
 }
 
 func (s *c03scn) close() {
-	s.B.Close()
-	s.R.Close()
+	Safe(func() string { s.B.Close(); return "" })
+	Safe(func() string { s.R.Close(); return "" })
 }
 
-// build makes a child of `parent` `dist` slots after it (offset r seconds into the slot).
-func (s *c03scn) build(parent *c03blk, t uint32) *c03blk {
-	blk, _, err := s.B.Build(parent.blk, t, nil, nil)
-	if err != nil {
-		s.c.Fail("c03/harness-build", fmt.Sprintf("Build on %d at %d: %v", parent.id, t, err), nil)
+// describeSnapshot fills nextDep / snapBad from Block.DeputyNodes.
+func (s *c03scn) describeSnapshot(b *c03blk) {
+	b.nextDep = "-"
+	if len(b.blk.DeputyNodes) == 0 {
+		return
+	}
+	var ns []string
+	for _, d := range b.blk.DeputyNodes {
+		ns = append(ns, fmt.Sprintf("%d", s.keyIndex(d.NodeID)))
+	}
+	b.nextDep = strings.Join(ns, ",")
+	if deputynode.IsSnapshotBlock(b.height) {
+		ok := Safe(func() string { deputynode.NewTermRecord(b.height, CloneBlock(b.blk).DeputyNodes); return "ok" })
+		b.snapBad = ok != "ok"
+	}
+}
+
+// build makes a child of `parent` stamped t on the builder (which stores it).
+func (s *c03scn) build(parent *c03blk, t uint32, txs types.Transactions) *c03blk {
+	consensus.VerifSetSigCache(common.Hash{}, nil)
+	var blk *types.Block
+	var err error
+	res := Safe(func() string {
+		var invalid types.Transactions
+		blk, invalid, err = s.B.Build(parent.blk, t, txs, nil)
+		if err == nil && (len(invalid) != 0 || len(blk.Txs) != len(txs)) {
+			err = fmt.Errorf("%d of %d txs packed", len(blk.Txs), len(txs))
+		}
+		return "ok"
+	})
+	if res != "ok" || err != nil {
+		s.c.Count("build-refused")
 		return nil
 	}
 	if _, dup := s.byHash[blk.Hash()]; dup {
 		return nil
 	}
 	deputynode.SetSelfNodeKey(detKey("outsider"))
-	if err := s.B.Insert(CloneBlock(blk)); err != nil {
-		s.c.Fail("c03/harness-build", fmt.Sprintf("builder rejected its own block (parent %d, t %d): %v", parent.id, t, err), nil)
+	ins := Safe(func() string { return c03errName(s.B.Insert(CloneBlock(blk))) })
+	if ins != "ok" && ins != "panic" {
+		s.c.Fail("c03/harness-build", fmt.Sprintf("builder rejected its own block (parent %d, t %d): %s", parent.id, t, ins), nil)
 		return nil
 	}
-	miner := -1
-	for i, k := range s.w.DeputyKeys {
-		if keyAddr(k) == blk.MinerAddress() {
-			miner = i
-		}
-	}
-	b := &c03blk{id: len(s.blks), blk: blk, hash: blk.Hash(), parent: parent.id, height: blk.Height(), miner: miner, valid: true, built: true}
+	b := &c03blk{id: len(s.blks), blk: blk, hash: blk.Hash(), parent: parent.id, height: blk.Height(), miner: s.addrIndex(blk.MinerAddress()), valid: true, built: true, alive: true}
+	s.describeSnapshot(b)
 	s.blks = append(s.blks, b)
 	s.byHash[b.hash] = b
 	return b
@@ -529,8 +828,8 @@ func (s *c03scn) build(parent *c03blk, t uint32) *c03blk {
 func (s *c03scn) corrupt(b *c03blk) *c03blk {
 	nb := CloneBlock(b.blk)
 	nb.Header.VersionRoot[0] ^= 0x55
-	Resign(nb, s.w.DeputyKeys[b.miner])
-	x := &c03blk{id: len(s.blks), blk: nb, hash: nb.Hash(), parent: b.parent, height: b.height, miner: b.miner, valid: false}
+	Resign(nb, s.keys[b.miner])
+	x := &c03blk{id: len(s.blks), blk: nb, hash: nb.Hash(), parent: b.parent, height: b.height, miner: b.miner, valid: false, nextDep: b.nextDep, snapBad: b.snapBad}
 	s.blks = append(s.blks, x)
 	s.byHash[x.hash] = x
 	return x
@@ -543,15 +842,49 @@ func (s *c03scn) rankAll() {
 	}
 	sort.Slice(idx, func(i, j int) bool { return bytes.Compare(s.blks[idx[i]].hash[:], s.blks[idx[j]].hash[:]) < 0 })
 	for r, i := range idx {
-		s.blks[i].rank = r
+		s.blks[i].rank = 1000 * (r + 1)
 	}
 }
 
 func (s *c03scn) start() {
 	s.rankAll()
-	line := fmt.Sprintf("new %d %d %d", s.dc, s.n, s.blks[0].rank)
+	var t0 []string
+	for i := 0; i < s.nDep; i++ {
+		t0 = append(t0, fmt.Sprintf("%d", i))
+	}
+	line := fmt.Sprintf("new %d %d %d %d %d %s", s.dc, s.T, s.I, s.rself, s.blks[0].rank, strings.Join(t0, ","))
 	s.lines = append(s.lines, line)
 	s.op(line, "ok")
+	s.started = true
+}
+
+// stabilizeOnBuilder makes block b stable on the builder (all deputies of its term confirm it), so that
+// the builder learns the next term and can mine past the interim period. Forks beside b die on the builder.
+func (s *c03scn) stabilizeOnBuilder(b *c03blk) bool {
+	deputynode.SetSelfNodeKey(detKey("outsider"))
+	var sigs []types.SignData
+	for _, d := range s.B.DM.GetDeputiesByHeight(b.height, true) {
+		if i := s.keyIndex(d.NodeID); i >= 0 && i != b.miner {
+			sigs = append(sigs, types.BytesToSignData(c03sign(s.keys[i], b.hash)))
+		}
+	}
+	res := Safe(func() string {
+		return c03errName(s.B.BC.VerifEngine().InsertConfirms(b.height, b.hash, sigs))
+	})
+	if s.B.BC.StableBlock().Hash() != b.hash {
+		s.c.Count("builder-stabilize:" + res)
+		return false
+	}
+	for _, x := range s.blks {
+		if x.built {
+			a := x
+			for a.height > b.height {
+				a = s.blks[a.parent]
+			}
+			x.alive = a.id == b.id
+		}
+	}
+	return true
 }
 
 func c03(c *Ctx) {
@@ -559,10 +892,19 @@ func c03(c *Ctx) {
 	if st, err := os.Stat("/dev/shm"); err == nil && st.IsDir() && os.Getenv("TMPDIR") == "" {
 		os.Setenv("TMPDIR", "/dev/shm")
 	}
-	// C03_ASIS=1 (debugging only, with VERIF_REPO=<tree where the fix commit d34eb0a is reverted>): tell the
-	// model driver to run the old bytes-only verifier instead of the live one.
-	if os.Getenv("C03_ASIS") != "" {
-		c.Op("mode asis", "ok")
+	oldT, oldI := params.TermDuration, params.InterimDuration
+	defer func() { params.TermDuration, params.InterimDuration = oldT, oldI }()
+	// C03_ASIS (debugging only, with VERIF_REPO=<tree where the named fix is reverted>): tell the model driver to run
+	// the old code. "d34eb0a": VerifyNewConfirms and TryConfirm by bytes (both fixes reverted);
+	// "262c027": only TryConfirm/tryConfirmStable by bytes (that fix reverted).
+	c03asis = os.Getenv("C03_ASIS")
+	switch c03asis {
+	case "":
+	case "d34eb0a":
+		c.Op("mode before-d34eb0a", "ok")
+	default:
+		c03asis = "262c027"
+		c.Op("mode before-262c027", "ok")
 	}
 	// ---- two_thirds_arith: the float expression of TwoThirdDeputyCount / IsConfirmEnough, all n < 65536 ----
 	for n := 0; n < 65536; n++ {
@@ -574,98 +916,259 @@ func c03(c *Ctx) {
 	}
 	c.Count("tt-sweep")
 
-	// ---- regression: the witness of the defect fixed by /repo commit d34eb0a, both delivery forms
-	// (3 deputies; the miner's re-encoded header signature offered as a confirmation must NOT count) ----
-	{
-		s := c03newScn(c, 3, 3)
-		g := s.blks[0]
-		b1 := s.build(g, g.blk.Time()+1)
-		b2 := s.build(b1, b1.blk.Time()+1)
-		s.start()
-		s.deliverBlock(b1, b1.blk.Header.SignData, nil)
-		s.deliverConfirms(b1, 1, [][]byte{malleate(b1.blk.Header.SignData)})
-		s.deliverBlock(b2, b2.blk.Header.SignData, [][]byte{malleate(b2.blk.Header.SignData)})
-		// the real TwoThirdDeputyCount of this node against the model's integer form
-		if got := s.R.DM.TwoThirdDeputyCount(1); got != 2 {
-			c.Fail("c03/two-thirds-float", fmt.Sprintf("TwoThirdDeputyCount with 3 deputies = %d", got), nil)
-		}
-		s.close()
-	}
-
+	c03regressions(c)
 	for iter := 0; iter < c.N; iter++ {
 		c03scenario(c)
 	}
 }
 
+// c03regressions: the deterministic witnesses of the defects found by this property.
+func c03regressions(c *Ctx) {
+	// (1) fixed by /repo commit d34eb0a: the miner's re-encoded header signature offered as a confirmation,
+	//     both delivery forms (3 deputies, outsider receiver) must NOT count
+	{
+		s := c03newScn(c, 3, 3, 1000000, 1000, c03outsider)
+		g := s.blks[0]
+		b1 := s.build(g, g.blk.Time()+1, nil)
+		b2 := s.build(b1, b1.blk.Time()+1, nil)
+		s.start()
+		s.deliverBlock(b1, b1.blk.Header.SignData, nil)
+		s.deliverConfirms(b1, 1, [][]byte{malleate(b1.blk.Header.SignData)})
+		s.deliverBlock(b2, b2.blk.Header.SignData, [][]byte{malleate(b2.blk.Header.SignData)})
+		if got := s.R.DM.TwoThirdDeputyCount(1); got != 2 {
+			c.Fail("c03/two-thirds-float", fmt.Sprintf("TwoThirdDeputyCount with 3 deputies = %d", got), nil)
+		}
+		s.close()
+	}
+	// (2) fixed by /repo commit 262c027. The receiver is a deputy (4 deputies): a block comes back carrying the receiver's own earlier
+	//     confirmation re-encoded by a peer (the node had signed it and crashed before storing the block);
+	//     TryConfirm must not add the node's signature a second time
+	{
+		s := c03newScn(c, 4, 4, 1000000, 1000, 1)
+		g := s.blks[0]
+		b1 := s.build(g, g.blk.Time()+1, nil)
+		if b1.miner == 1 {
+			s.rself, s.rkey = 2, s.keys[2]
+		}
+		b2 := s.build(b1, b1.blk.Time()+1, nil)
+		s.start()
+		s.deliverBlock(b1, b1.blk.Header.SignData, [][]byte{malleate(c03sign(s.rkey, b1.hash))})
+		// same through tryConfirmStable: b1 becomes stable as an ancestor of b2 and still lacks confirms
+		var sigs [][]byte
+		for i := 0; i < 4; i++ {
+			if i != b2.miner && i != s.rself {
+				sigs = append(sigs, c03sign(s.keys[i], b2.hash))
+			}
+		}
+		s.deliverBlock(b2, b2.blk.Header.SignData, sigs)
+		c.Count("regression:own-confirm-twice")
+		s.close()
+	}
+	// (3) C10's open finding (a snapshot block whose deputy list NewTermRecord refuses) seen from finality:
+	//     the panic comes after SetStableBlock has committed and before the head is re-picked
+	c03snapshotPanic(c)
+}
+
+// c03snapshotPanic: 1 genesis deputy (every block is final at once), deputyCount 2, TermDuration 6:
+// h1 fund U1 and V; h2 U1 registers (50,000 votes), V votes for D0 (4 votes); h6 (snapshot) gives V
+// 20,000,000 LEMO: order [U1, D0] from the parent's top list, votes [50000, 100004] from the block's own
+// post-state: NewTermRecord panics with ErrInvalidDeputyVotes when the block becomes stable.
+func c03snapshotPanic(c *Ctx) {
+	s := c03newScn(c, 1, 2, 6, 2, c03outsider)
+	defer s.close()
+	u1k, vk, u1node := detKey("c10-u1"), detKey("c10-v"), detKey("c10-u1-node")
+	s.keys = append(s.keys, u1node) // node 1 of the model
+	w := s.w
+	parent := s.blks[0]
+	t := parent.blk.Time() + 1
+	var chain []*c03blk
+	for h := 1; h <= 7; h++ {
+		var txs types.Transactions
+		opt := func(m string) TxOpt { return TxOpt{Exp: uint64(t) + 100, Msg: m} }
+		switch h {
+		case 1:
+			txs = append(txs, txTransfer(w.FounderKey, keyAddr(u1k), lemo(6000000), opt("fund-u1")), txTransfer(w.FounderKey, keyAddr(vk), lemo(1000), opt("fund-v")))
+		case 2:
+			txs = append(txs, txRegister(u1k, lemo(5000000), u1node, false, nil, opt("reg-u1")), txVote(vk, keyAddr(w.DeputyKeys[0]), opt("vote-d0")))
+		case 6:
+			txs = append(txs, txTransfer(w.FounderKey, keyAddr(vk), lemo(20000000), opt("fund-v-again")))
+		}
+		b := s.build(parent, t, txs)
+		if b == nil {
+			c.Count(fmt.Sprintf("snapshot-panic:no-block-%d", h))
+			break
+		}
+		chain = append(chain, b)
+		parent = b
+		t += 10
+	}
+	s.start()
+	for _, b := range chain {
+		s.deliverBlock(b, b.blk.Header.SignData, nil)
+	}
+	c.Count("regression:snapshot-panic")
+}
+
 func c03scenario(c *Ctx) {
+	terms := c.Rnd.Intn(100) < 35
 	nDep := []int{2, 3, 3, 3, 4, 4, 5, 6, 7}[c.Rnd.Intn(9)]
 	dc := nDep
-	switch c.Rnd.Intn(10) {
-	case 0, 1:
-		dc = nDep + 1 + c.Rnd.Intn(3) // fast path threshold above the real one
-	case 2:
-		if nDep > 2 {
-			dc = 2 + c.Rnd.Intn(nDep-2) // genesis names more candidates than the node admits
-		}
-	case 3:
-		if c.Rnd.Intn(3) == 0 {
-			dc = 1 // single deputy: every block is final at once
+	T, I := uint32(1000000), uint32(1000)
+	if terms {
+		nDep = 3 + c.Rnd.Intn(3)
+		dc = 2 + c.Rnd.Intn(nDep-1) // 2..nDep: mostly fewer seats than candidates, so the deputy SET changes with the ranking
+		T, I = uint32(5+c.Rnd.Intn(2)), uint32(1+c.Rnd.Intn(2))
+	} else {
+		switch c.Rnd.Intn(10) {
+		case 0, 1:
+			dc = nDep + 1 + c.Rnd.Intn(3) // fast path threshold above the real one
+		case 2:
+			if nDep > 2 {
+				dc = 2 + c.Rnd.Intn(nDep-2) // genesis names more candidates than the node admits
+			}
+		case 3:
+			if c.Rnd.Intn(3) == 0 {
+				dc = 1 // single deputy: every block is final at once
+			}
 		}
 	}
-	s := c03newScn(c, nDep, dc)
+	rself := c03outsider
+	if c.Rnd.Intn(100) < 60 {
+		rself = c.Rnd.Intn(nDep)
+	}
+	s := c03newScn(c, nDep, dc, T, I, rself)
 	defer s.close()
-	c.Count(fmt.Sprintf("n=%d", s.n))
+	n := nDep
+	if dc < n {
+		n = dc
+	}
+	c.Count(fmt.Sprintf("n=%d", n))
 	if dc > nDep {
 		c.Count("dc>n")
 	} else if dc < nDep {
 		c.Count("dc<nDep")
 	}
-	if got, want := s.R.DM.TwoThirdDeputyCount(1), uint32((2*s.n+2)/3); got != want {
-		c.Fail("c03/two-thirds-float", fmt.Sprintf("TwoThirdDeputyCount with %d deputies = %d, want %d", s.n, got, want), nil)
+	if terms {
+		c.Count("scenario:term-boundary")
+	} else {
+		c.Count("scenario:single-term")
+	}
+	if rself == c03outsider {
+		c.Count("receiver:outsider")
+	} else if rself < n {
+		c.Count("receiver:deputy")
+	} else {
+		c.Count("receiver:candidate-not-deputy-in-term0")
+	}
+	if got, want := s.R.DM.TwoThirdDeputyCount(1), uint32((2*n+2)/3); got != want {
+		c.Fail("c03/two-thirds-float", fmt.Sprintf("TwoThirdDeputyCount with %d deputies = %d, want %d", n, got, want), nil)
 	}
 
 	// ---- block tree on the builder ----
-	m := 3 + c.Rnd.Intn(8)
 	used := map[string]bool{}
 	last := s.blks[0]
-	for i := 0; i < m; i++ {
-		parent := last
-		if s.n > 1 {
-			switch x := c.Rnd.Intn(100); {
-			case x < 30:
-				var cands []*c03blk
-				for _, b := range s.blks {
-					if b.built {
-						cands = append(cands, b)
+	grow := func(m int, maxHeight uint32, voteAt int) {
+		for i := 0; i < m; i++ {
+			parent := last
+			if n > 1 {
+				switch x := c.Rnd.Intn(100); {
+				case x < 28:
+					var cands []*c03blk
+					for _, b := range s.blks {
+						if b.built && b.alive && b.height < maxHeight {
+							cands = append(cands, b)
+						}
+					}
+					if len(cands) > 0 {
+						parent = cands[c.Rnd.Intn(len(cands))]
+					}
+				case x < 36:
+					if s.blks[0].alive {
+						parent = s.blks[0]
 					}
 				}
-				parent = cands[c.Rnd.Intn(len(cands))]
-			case x < 40:
-				parent = s.blks[0]
+			}
+			if parent.height >= maxHeight {
+				continue
+			}
+			nd := len(s.B.DM.GetDeputiesByHeight(parent.height+1, true))
+			if nd == 0 {
+				continue
+			}
+			d := 1 + c.Rnd.Intn(nd)
+			t := parent.blk.Time() + uint32(10*(d-1)+c.Rnd.Intn(10))
+			key := fmt.Sprintf("%d/%d", parent.id, t)
+			if used[key] {
+				continue
+			}
+			used[key] = true
+			var txs types.Transactions
+			if voteAt > 0 && int(parent.height)+1 == voteAt && parent.id == last.id {
+				// the founder (all LEMO) votes for one candidate: it ranks first in the next term
+				txs = append(txs, txVote(s.w.FounderKey, keyAddr(s.keys[c.Rnd.Intn(nDep)]), TxOpt{Exp: uint64(t) + 100}))
+				c.Count("tree:vote-tx")
+			}
+			b := s.build(parent, t, txs)
+			if b == nil {
+				continue
+			}
+			if parent.id != last.id {
+				c.Count("tree:fork")
+			} else {
+				c.Count("tree:extend")
+			}
+			if b.height > last.height || b.height == last.height && parent.id == last.id {
+				last = b
+			}
+			if b.nextDep != "-" {
+				c.Count("tree:snapshot-block")
+			}
+			if c.Rnd.Intn(14) == 0 {
+				s.corrupt(b)
+				c.Count("tree:corrupt-twin")
 			}
 		}
-		d := 1 + c.Rnd.Intn(s.n)
-		t := parent.blk.Time() + uint32(10*(d-1)+c.Rnd.Intn(10))
-		key := fmt.Sprintf("%d/%d", parent.id, t)
-		if used[key] {
-			continue
+	}
+	if !terms {
+		m := 3 + c.Rnd.Intn(8)
+		if c.Rnd.Intn(4) == 0 {
+			m = 11 + c.Rnd.Intn(8) // bigger trees
 		}
-		used[key] = true
-		b := s.build(parent, t)
-		if b == nil {
-			continue
+		if n == 1 {
+			m = 3 + c.Rnd.Intn(5)
 		}
-		if parent.id != last.id {
-			c.Count("tree:fork")
+		grow(m, 1000, 0)
+	} else {
+		voteAt := 0
+		if c.Rnd.Intn(100) < 70 {
+			voteAt = 1 + c.Rnd.Intn(3)
+		}
+		// phase 1: up to the end of the interim period
+		for tries := 0; last.height < T+I && tries < 6; tries++ {
+			grow(int(T+I)+2, T+I, voteAt)
+		}
+		// the builder must know the next term before it can mine past the interim period
+		var snap *c03blk
+		for a := last; a != nil && a.parent >= 0; a = s.blks[a.parent] {
+			if a.height == T {
+				snap = a
+			}
+		}
+		if snap != nil && last.height == T+I {
+			target := snap
+			for a := last; a.height > T; a = s.blks[a.parent] { // sometimes a later trunk block
+				if c.Rnd.Intn(4) == 0 {
+					target = a
+					break
+				}
+			}
+			if s.stabilizeOnBuilder(target) {
+				c.Count("builder:next-term-known")
+				// phase 2: blocks signed by the deputies of the next term
+				grow(3+c.Rnd.Intn(6), T+I+8, 0)
+			}
 		} else {
-			c.Count("tree:extend")
-		}
-		if b.height >= last.height {
-			last = b
-		}
-		if c.Rnd.Intn(12) == 0 {
-			s.corrupt(b)
-			c.Count("tree:corrupt-twin")
+			c.Count("builder:trunk-too-short")
 		}
 	}
 	s.start()
@@ -674,12 +1177,13 @@ func c03scenario(c *Ctx) {
 	type ev struct {
 		key     float64
 		b       *c03blk
-		kind    int // 0 block, 1 confirms
+		kind    int // 0 block, 1 confirms, 2 mine, 3 reopen
 		hdr     []byte
 		sigs    [][]byte
 		cheight uint32
 	}
 	var evs []ev
+	nb := float64(len(s.blks))
 	for _, b := range s.blks[1:] {
 		if c.Rnd.Intn(25) == 0 {
 			c.Count("blk-withheld")
@@ -697,12 +1201,11 @@ func c03scenario(c *Ctx) {
 				c.Count("hdr:malleated")
 			case x < 15 && b.valid:
 				// signed by somebody else over the same hash: wrong signer
-				k := s.w.DeputyKeys[c.Rnd.Intn(s.nDep)]
+				k := s.keys[c.Rnd.Intn(len(s.keys))]
 				if c.Rnd.Intn(2) == 0 {
 					k = detKey("outsider-0")
 				}
-				g, _ := crypto.Sign(b.hash[:], k)
-				e.hdr = g
+				e.hdr = c03sign(k, b.hash)
 				c.Count("hdr:other-signer")
 			}
 			if c.Rnd.Intn(100) < 35 {
@@ -732,18 +1235,51 @@ func c03scenario(c *Ctx) {
 		}
 		evs = append(evs, e)
 	}
+	if terms && c.Rnd.Intn(100) < 75 {
+		// a full honest confirmation set for one trunk block at or above the snapshot height, so that the
+		// receiver learns the next term in most scenarios
+		for a := last; a != nil && a.parent >= 0; a = s.blks[a.parent] {
+			if a.height == T || a.height > T && a.height <= T+I && c.Rnd.Intn(3) == 0 {
+				var sigs [][]byte
+				for i := 0; i < len(s.keys); i++ {
+					if i != a.miner {
+						sigs = append(sigs, c03sign(s.keys[i], a.hash))
+					}
+				}
+				evs = append(evs, ev{key: float64(a.id) + 0.5 + c.Rnd.Float64()*3, b: a, kind: 1, cheight: a.height, sigs: sigs})
+				c.Count("cf:helper-full-set")
+				break
+			}
+		}
+	}
+	if rself != c03outsider {
+		for i := 0; i < 1+c.Rnd.Intn(3); i++ {
+			evs = append(evs, ev{key: c.Rnd.Float64() * (nb + 3), kind: 2})
+		}
+	}
+	if c.Rnd.Intn(100) < 40 {
+		for i := 0; i < 1+c.Rnd.Intn(2); i++ {
+			evs = append(evs, ev{key: 1 + c.Rnd.Float64()*(nb+3), kind: 3})
+		}
+	}
 	sort.SliceStable(evs, func(i, j int) bool { return evs[i].key < evs[j].key })
 	for _, e := range evs {
-		if e.kind == 0 {
+		switch e.kind {
+		case 0:
 			s.deliverBlock(e.b, e.hdr, e.sigs)
-		} else {
+		case 1:
 			s.deliverConfirms(e.b, e.cheight, e.sigs)
+		case 2:
+			s.mine()
+		case 3:
+			s.reopen()
 		}
 	}
 	// catch-up phase (what block sync does): blocks the receiver still lacks come again, parents first,
 	// interleaved with more confirmation packets
-	for _, b := range s.blks[1:] {
-		if b.valid && !s.R.BC.HasBlock(b.hash) && c.Rnd.Intn(8) != 0 {
+	nblk := len(s.blks)
+	for _, b := range s.blks[1:nblk] {
+		if b.built && b.valid && !s.R.BC.HasBlock(b.hash) && c.Rnd.Intn(8) != 0 {
 			c.Count("blk-catch-up")
 			var carried [][]byte
 			if c.Rnd.Intn(4) == 0 {
@@ -755,5 +1291,8 @@ func c03scenario(c *Ctx) {
 			t := s.blks[1+c.Rnd.Intn(len(s.blks)-1)]
 			s.deliverConfirms(t, t.height, s.genSigs(t, 2))
 		}
+	}
+	if c.Rnd.Intn(5) == 0 {
+		s.reopen()
 	}
 }
